@@ -59,7 +59,7 @@ def closed_rules(ck, C):
     # the Disconnected edge: discriminant of the Err payload == Disconnected
     tre = None
     for sw in T.switches_on_expr(cl, lambda e: e[0] == "discr"):
-        e = cl.expr(cl.blocks[sw]["term"]["on"])
+        e = cl.expr(cl.blocks[sw]["term"]["on"], at=sw)
         if any(r == ("call", tr[0].bb) and p == (" as Err", ".0") for r, p in cl.resolve(e[2])):
             tre = sw
     disc_edges = T.discr_edges(cl, tre, 1) if tre is not None else []  # TryRecvError::Disconnected = 1
@@ -85,7 +85,9 @@ def closed_rules(ck, C):
     ok = False
     if disc_cells and rm:
         for cell in disc_cells:
-            yes, no = cells.set_edges(cell)
+            # the value(s) stored after Closed (an enum-valued cell may record other outcomes of the drain as well)
+            dvals = {v for i, c, v in cells.set_stores_valued() if c == cell and any(i in cl.reachable([cb.to]) for cb in closed_cb)}
+            yes, no = cells.set_edges(cell, values=dvals)
             if not yes:
                 continue
             others = [i for i, v in rets if i not in rm]
@@ -177,7 +179,7 @@ def run(ck):
             ok_e, err_e, _ = T.result_split(ts, cs.bb)
             full = []
             for sw in T.switches_on_expr(ts, lambda e: e[0] == "discr"):
-                e = ts.expr(ts.blocks[sw]["term"]["on"])
+                e = ts.expr(ts.blocks[sw]["term"]["on"], at=sw)
                 if any(r == ("call", cs.bb) and p == (" as Err", ".0") for r, p in ts.resolve(e[2])):
                     full += T.discr_edges(ts, sw, 0)  # TrySendError::Full = 0
             bad = T.t2_all_exits(ts, [x for _, x in full], [p.bb for p in pg]) if full and pg else ([0] if not pg else None)
